@@ -23,7 +23,7 @@ BUDGET = {
     "quick": {"cases": 9600, "seconds": 90, "shards": 8},
     "thorough": {"cases": 200000, "seconds": 900, "shards": 16},
 }
-REQUIRED_OBS = ["queries_judged", "early_exit_taken", "full_scan", "tie_label_set>1", "query_is_training_copy", "pre_computed_queries", "semi_queries"]
+REQUIRED_OBS = ["exhaustive_small_graph_cases", "queries_judged", "early_exit_taken", "full_scan", "tie_label_set>1", "query_is_training_copy", "pre_computed_queries", "semi_queries"]
 MIN_NONTRIVIAL = 100
 
 
@@ -73,9 +73,11 @@ def check(case):
         m.distance_fn = counting
         preds = []
         call = None
+        buf = np.empty((1, o.Q.shape[1]))      # ONE array object refilled in place (an identity-keyed cache would go stale)
         for x in range(len(o.Q)):       # one call per query so evaluations are attributable; C09 judges batch independence
             box[0] = 0
-            call = safe_call(m.predict, o.Q[x:x + 1].copy())
+            buf[:] = o.Q[x]
+            call = safe_call(m.predict, buf)
             if not call.ok:
                 break
             preds.append(int(call.value[0]))
@@ -140,3 +142,31 @@ def check(case):
 
 def shrink(case):
     yield from shrink_rows(case)
+
+
+def extra(tier, seed, shard=0, nshards=1):
+    """Bounded-exhaustive pass: every weight matrix over a small alphabet x every labelling on 3..5 nodes (all tie patterns),
+    fed as pre-computed distances with a reversed index array; each is judged by the same oracle as the random cases."""
+    out = []
+    agg = Result()
+    n_cases = 0
+    for n, D, Y in gen.exhaustive_small_graphs(tier, shard, nshards):
+        I = list(range(n))[::-1]
+        Dp = D[np.ix_(I, I)]            # matrix row I[i] holds sample i: the matrix is permuted consistently with the index array
+        DD = np.zeros((n, n))
+        for a in range(n):
+            for b in range(n):
+                DD[I[a], I[b]] = D[a, b]
+        case = {"model": "supervised", "metric": "log_squared_euclidean", "gclass": "EXH", "pattern": "exh",
+                "X": [[float(i)] for i in I], "Y": Y, "U": [], "Q": [[float(q)] for q in range(n)],
+                "pre": {"D": DD.tolist(), "I": I, "IQ": list(range(n)), "kind": "EXH"}, "prefit": None}
+        r = check(case)
+        n_cases += 1
+        if r.violations:
+            out.append((case, r))
+        else:
+            agg.obs.update(r.obs)
+    agg.see("exhaustive_small_graph_cases", n_cases)
+    agg.cell("exhaustive-small-graphs", tier)
+    out.append(({"exhaustive_small_graphs": {"tier": tier, "cases_this_shard": n_cases}}, agg))
+    return out
